@@ -1,4 +1,5 @@
 import BoxoModel.C31.Lemmas
+import BoxoModel.C31.TreeLemmas
 /-!
 C31 — trustless gateway responses are verifiable and sufficient: the part boxo's own code decides.
 
@@ -70,7 +71,7 @@ theorem c31_range_parse_complete (a b : Bytes) (f : Int) (ha : 58 ∉ a) (hb : 5
     by_cases h1 : f ≥ 0 ∧ t ≥ 0 ∧ f > t
     · simp [h1]
     · by_cases h2 : f < 0 ∧ t < 0 ∧ f > t
-      · simp [h1, h2]
+      · simp [h2]
       · simp [h1, h2]
 
 /-- Range → reads: unless the request is inverted (`err`, exactly when the last requested byte lies more
@@ -144,7 +145,91 @@ check is done on the real response by the harness). -/
 theorem c31_block {κ : Type} [DecidableEq κ] (store : κ → Option Bytes) (c : κ) (b : Bytes)
     (h : store c = some b) : rawResponse store c = some b := h
 
+/-! ### every scope, every terminal kind: the CAR block set over the labelled tree model -/
+
+/-- Path part: the offline re-run of ResolveToLastNode over a partial block set succeeds — with the same
+outcome as over the full store (the terminal element, or the same ErrNoLink / error, i.e. a verifiable
+absence) — iff the set contains `pathBlocks` (root, intermediate nodes, and the HAMT child shards on the
+digit path of every looked-up name). No hypothesis on the tree. -/
+theorem c31_path_replay (hv : Nat → Bool) (H : Bytes → Bytes) (root : Tr) (segs : List Bytes) :
+    resolveP hv H root segs
+      = if (pathBlocks H root segs).all hv then some (resolveT H root segs).1 else none :=
+  resolveP_eq hv H root segs
+
+/-- Scope part: the replay of the requested scope on the terminal element (block: the block; entity:
+the requested bytes of a file / the complete listing of a basic or HAMT directory / the symlink node;
+all: a walk of the whole DAG) succeeds iff the set contains `scopeBlocks`, and then yields the complete
+answer `scopeSpec`. -/
+theorem c31_scope_replay (hv : Nat → Bool) (t : Tr) (sc : Scope) (r : Rng) (hw : t.wellSizedFile = true) :
+    scopeP hv t sc r = if (scopeBlocks t sc r).2.all hv then some (scopeSpec t sc r) else none :=
+  scopeP_eq hv t sc r hw
+
+/-- Sufficiency for every scope: over any block set containing the model's CAR block set
+(`carBlocks` = `pathBlocks ++ scopeBlocks`, the set the real CAR is diffed against) the whole replay
+succeeds and returns the complete answer. -/
+theorem c31_car_sufficient (hv : Nat → Bool) (H : Bytes → Bytes) (root : Tr) (segs : List Bytes) (sc : Scope)
+    (r : Rng) (e : Bool) (bl : List Nat) (hc : carBlocks H root segs sc r = some (e, bl))
+    (hall : ∀ i ∈ bl, hv i = true) :
+    ∃ t, (resolveT H root segs).1 = .ok t
+      ∧ (t.wellSizedFile = true → replayP hv H root segs sc r = some (some (scopeSpec t sc r))) := by
+  unfold carBlocks at hc
+  cases ht : (resolveT H root segs).1 with
+  | ok t =>
+    simp only [ht, Option.some.injEq, Prod.mk.injEq] at hc
+    refine ⟨t, rfl, fun hw => ?_⟩
+    rw [replayP_eq hv H root segs sc r t ht hw]
+    have : (pathBlocks H root segs ++ (scopeBlocks t sc r).2).all hv = true := by
+      rw [hc.2]; exact List.all_eq_true.mpr hall
+    simp [this]
+  | noLink n => simp [ht] at hc
+  | err => simp [ht] at hc
+
+/-- Minimality for every scope: if any block of the model's CAR block set is absent, the replay fails. -/
+theorem c31_car_minimal (hv : Nat → Bool) (H : Bytes → Bytes) (root : Tr) (segs : List Bytes) (sc : Scope)
+    (r : Rng) (e : Bool) (bl : List Nat) (hc : carBlocks H root segs sc r = some (e, bl))
+    (i : Nat) (hi : i ∈ bl) (habs : hv i = false)
+    (hw : ∀ t, (resolveT H root segs).1 = .ok t → t.wellSizedFile = true) :
+    replayP hv H root segs sc r = none := by
+  unfold carBlocks at hc
+  cases ht : (resolveT H root segs).1 with
+  | ok t =>
+    simp only [ht, Option.some.injEq, Prod.mk.injEq] at hc
+    rw [replayP_eq hv H root segs sc r t ht (hw t ht)]
+    have : (pathBlocks H root segs ++ (scopeBlocks t sc r).2).all hv = false := by
+      rw [hc.2]
+      apply Bool.eq_false_iff.mpr
+      intro hall
+      have := List.all_eq_true.mp hall i hi
+      simp [habs] at this
+    simp [this]
+  | noLink n => simp [ht] at hc
+  | err => simp [ht] at hc
+
 /-! ### non-vacuity -/
+
+private def exH : Bytes → Bytes
+  | [97] => [0x20, 0, 0, 0, 0, 0, 0, 0]   -- "a": digits 1,…
+  | [98] => [0xA8, 0, 0, 0, 0, 0, 0, 0]   -- "b": digits 5,2,…
+  | [99] => [0xB8, 0, 0, 0, 0, 0, 0, 0]   -- "c": digits 5,6,…
+  | _ => [0, 0, 0, 0, 0, 0, 0, 0]
+
+/-- root dir(0) / "d" → HAMT(1) { "a" → file(2); child shard(3) { "b" → file(4,5,6), "c" → sym(7) } } -/
+private def exTr : Tr :=
+  .dir 0 [([100], .hdir 1 8 0x22
+    (.val [49, 97] (.file 2 true (.leaf [1, 2]) [2])
+      (.sub [53] 3 8 0x44
+        (.val [50, 98] (.file 4 false (.node 4 [(.leaf [1, 2], 2), (.leaf [3, 4], 2)]) [4, 5, 6])
+          (.val [54, 99] (.sym 7) .nil)) .nil)))]
+
+example : carBlocks exH exTr [[100], [98]] .entity ⟨2, none⟩ = some (false, [0, 1, 3, 4, 6]) := by decide
+example : carBlocks exH exTr [[100], [98]] .block ⟨0, none⟩ = some (false, [0, 1, 3, 4]) := by decide
+example : carBlocks exH exTr [[100]] .entity ⟨0, none⟩ = some (false, [0, 1, 3]) := by decide
+example : carBlocks exH exTr [[100]] .all ⟨0, none⟩ = some (false, [0, 1, 2, 3, 4, 5, 6, 7]) := by decide
+example : carBlocks exH exTr [[100], [122]] .all ⟨0, none⟩ = none := by decide
+example : pathBlocks exH exTr [[100], [122]] = [0, 1] := by decide
+example : replayP (fun i => i != 3) exH exTr [[100], [98]] .block ⟨0, none⟩ = none := by decide
+example : replayP (fun i => i != 5) exH exTr [[100], [98]] .entity ⟨2, none⟩ = some (some (.bytes [3, 4])) := by decide
+
 
 private def exTree : FNode :=
   .node 10 [(.node 6 [(.leaf [1, 2, 3], 3), (.leaf [4, 5, 6], 3)], 6), (.leaf [7, 8, 9, 10], 4)]
